@@ -142,7 +142,7 @@ def run_walk(case):
     # a Ref whose target is unresolved also fails .simple(); that is the same finding, not a second one
     judged_err = [e for e in judged_err if not (e[0] == "simple_raised" and "which was not found in the" in e[1])]
     for kind, msg in sorted(set(judged_err)):
-        fails.append({"sig": f"{kind}:{msg.split(': ')[0].replace('<Ref: ', 'Ref(')[:70]}", "detail": {"dialect": name, "error": msg}})
+        fails.append({"sig": f"{kind}:{msg.replace('<Ref: ', 'Ref(').split(': ')[0][:70]}", "detail": {"dialect": name, "error": msg}})
     counters["elements_reachable_from_root"] = from_root
     return {
         "status": "fail" if fails else "pass",
